@@ -528,6 +528,11 @@ def translate(repo, lean):
     return info
 
 
+def translate_only(repo, lean):
+    """for other properties' runs: regenerate the files without the replay hook"""
+    return _translate_guard_graph(repo, lean)
+
+
 def _translate_guard_graph(repo, lean):
     edges, missing, unresolved = extract_graph(repo)
     # a producer that does not reach the assertion but whose body (or a body it reaches) contains a reference the extractor
